@@ -511,10 +511,69 @@ def run_full_case(st: Stats, case):
             r.cleanup()
 
 
+def _snap(out, root):
+    import hashlib
+    import os
+
+    snap = {}
+    for d, _, fs in os.walk(out):
+        for f in fs:
+            pth = os.path.join(d, f)
+            rel = os.path.relpath(pth, out)
+            if rel.startswith(("css/", "js/", "webfonts/", "search/tipuesearch")) and not rel.endswith("_content.js"):
+                continue
+            snap[rel] = hashlib.sha1(open(pth, "rb").read().replace(str(root).encode(), b"ROOT")).hexdigest()
+    return snap
+
+
+def run_rerun_case(st: Stats, case):
+    """history: a run with the file intact, then the file gets damaged and FORD runs again into the same output directory:
+    the result equals a first run over the damaged project (nothing of the file's old documentation survives)."""
+    _, kind, detail, text = case
+    good = rename(LIB)
+    name = POSITIONS["between"]
+    stratum = f"rerun/{kind}"
+    shown = text if isinstance(text, str) else repr(text)
+    inp = dict(kind=kind, detail=detail, position="rerun", bad_file=name, text=shown[:3000], rerun=True)
+    feats = dict(kind=kind, detail=detail if kind == "grammar" else detail.split("@")[0].split("[")[0], position="rerun")
+    st.evaluations += 1
+    st.nontrivial.add(core.digest(["rerun", kind, detail]))
+    root = fordrun.new_root()
+    roots = [root]
+    try:
+        opts = dict(display=["public", "private", "protected"], search=True)
+        r1 = fordrun.build(dict(BASE, **{f"src/{name}": good}), opts, stage="write", root=root, keep=True)
+        r2 = fordrun.build(dict(BASE, **{f"src/{name}": text}), opts, stage="write", root=root, keep=True)
+        fresh_root = fordrun.new_root()
+        roots.append(fresh_root)
+        r3 = fordrun.build(dict(BASE, **{f"src/{name}": text}), opts, stage="write", root=fresh_root, keep=True)
+        st.transitions += 3
+        if any(r.error is not None or r.stage_reached != "write" for r in (r1, r2, r3)):
+            bad_r = next(r for r in (r1, r2, r3) if r.error is not None or r.stage_reached != "write")
+            st.violation("run-aborted", stratum, dict(feats, error_class=type(bad_r.error).__name__, message=str(bad_r.error)[:60]), inp, repr(bad_r.error)[:300], "every run completes")
+            st.stratum(stratum, 1)
+            return
+        a, b = _snap(r2.out, root), _snap(r3.out, fresh_root)
+        if a != b:
+            diff = sorted(k for k in set(a) | set(b) if a.get(k) != b.get(k))
+            st.violation("other-files-tree-changed", stratum, dict(feats, diff="stale-output" if any(k not in b for k in diff) else "content"), inp,
+                         dict(only_after_rerun=[k for k in diff if k not in b][:6], differing=[k for k in diff if k in a and k in b][:6]), "the same site as a first run over the damaged project")
+            st.stratum(stratum, 1)
+        else:
+            st.stratum(stratum, 0)
+    finally:
+        import shutil
+
+        for rt in roots:
+            shutil.rmtree(rt, ignore_errors=True)
+
+
 def work(chunk):
     st = Stats()
     for case in chunk:
-        if case[0] == "full":
+        if case[0] == "rerun":
+            run_rerun_case(st, case)
+        elif case[0] == "full":
             run_full_case(st, case)
         elif case[0] == "shared-include":
             run_shared_include_case(st, case)
@@ -528,9 +587,13 @@ def work(chunk):
 def gen_cases(tier):
     for kind in BAD_INCLUDES:
         yield ("full", "shared-include", kind, None)
+    n_re = 0
     for kind, detail, text in corruptions(tier):
         if kind == "grammar":
             yield ("full", kind, detail, text)
+        if (kind == "grammar" and detail in ("prose", "stray-end", "invalid-utf8", "module-no-name", "empty")) or (kind == "truncate" and detail.startswith("lib@") and n_re < (6 if tier == "quick" else 40)):
+            n_re += kind == "truncate"
+            yield ("rerun", kind, detail, text)
     for kind in BAD_INCLUDES:
         for nusers in (1, 2, 3):
             for fixed in (False, True):
@@ -548,6 +611,14 @@ def replay(path):
 
     core.use_repo()
     rec = json.loads(open(path).read())
+    if rec["input"].get("rerun"):
+        st = Stats()
+        i = rec["input"]
+        k, d, t = next((k, d, t) for (k, d, t) in corruptions("thorough") if k == i["kind"] and d == i["detail"])
+        run_rerun_case(st, ("rerun", k, d, t))
+        for v in st.violations:
+            print("REPRODUCED", v["clause"], v["observed"])
+        return 1 if st.violations else 0
     if rec["input"].get("full_run"):
         st = Stats()
         i = rec["input"]
